@@ -191,6 +191,8 @@ pub fn run(seed: u64, cases: usize, out: &mut Sink) {
         let mut r = rng.fork();
         if case % 4 == 3 {
             run_iterator_case(case, &mut r, out);
+        } else if case % 8 == 6 {
+            run_seek_case(seed, case, &mut r, out);
         } else {
             run_chain_case(case, &mut r, out);
         }
@@ -836,4 +838,259 @@ fn run_iterator_case(case: usize, r: &mut Rng, out: &mut Sink) {
             }
         }
     }
+}
+
+// ---------------------------------------------------------------------------------------------
+// the overlay-aware seek of a REAL store: `begin_leaf_fetch` / `continue_leaf_fetch` (the leaf below a leaf node)
+// and `continue_leaves_fetch` (reconstruction of elided pages) merge the session's `value_iter` with the on-disk
+// leaves.  A small real store under /dev/shm, a chain of real overlays over a dense universe, and a path proof of
+// EVERY key of the universe (and neighbours) from a session on the chain.
+
+fn subtree_range(k: &Key, depth: usize) -> (Key, Option<Key>) {
+    let mut lo = *k;
+    let mut hi = *k;
+    for i in depth..256 {
+        set_bit(&mut lo, i, false);
+        set_bit(&mut hi, i, true);
+    }
+    (lo, if hi == [0xffu8; 32] { None } else { Some(succ(&hi)) })
+}
+
+fn show_hashed(ws: &[(Key, Change)]) -> String {
+    if ws.is_empty() {
+        return "-".into();
+    }
+    ws.iter()
+        .map(|(k, c)| match c {
+            Some(v) => format!("{}:{}", hex(k), hex(&crate::db::vhash(v))),
+            None => format!("{}:-", hex(k)),
+        })
+        .collect::<Vec<_>>()
+        .join(",")
+}
+
+fn run_seek_case(seed: u64, case: usize, r: &mut Rng, out: &mut Sink) {
+    use nomt::hasher::Blake3Hasher;
+    use nomt::proof::PathProofTerminal;
+    use nomt::{KeyReadWrite, Nomt, Overlay as RealOverlay, SessionParams};
+    use nomt_core::hasher::NodeHasher;
+    use nomt_core::trie::{InternalData, LeafData, TERMINATOR};
+    let mut universe = gen_universe(r);
+    // every other case: a cluster of > 20 leaves under one 6-bit prefix so that some pages are stored, not elided
+    if r.chance(1, 2) {
+        let base = r.bytes32();
+        let d = *r.pick(&[6usize, 7, 12, 13]);
+        let mut set: BTreeSet<Key> = universe.iter().cloned().collect();
+        for _ in 0..r.range(21, 30) {
+            set.insert(with_prefix(r, &base, d));
+        }
+        universe = set.into_iter().collect();
+    }
+    let mut cfg = crate::db::DbCfg::gen(r);
+    cfg.rollback = r.chance(1, 2);
+    let dir = format!("/dev/shm/nomt-verif-ovl-{}-{seed}-{case}", std::process::id());
+    let _ = std::fs::remove_dir_all(&dir);
+    out.mark_case(format!("case {case} seek universe={} cfg: {}", universe.len(), cfg.describe()));
+    let db: Nomt<Blake3Hasher> = match Nomt::open(cfg.options(&dir)) {
+        Ok(db) => db,
+        Err(e) => {
+            out.fail(format!("C11 cannot create the store: {e:#}"));
+            return;
+        }
+    };
+    let mut disk: BTreeMap<Key, Vec<u8>> = BTreeMap::new();
+    let mut overlays: Vec<(RealOverlay, BTreeMap<Key, Change>)> = vec![]; // oldest first
+    let result = std::panic::catch_unwind(std::panic::AssertUnwindSafe(|| -> Result<(), String> {
+        // ---- the committed map
+        let mut writes: BTreeMap<Key, Change> = BTreeMap::new();
+        for k in &universe {
+            if r.chance(3, 5) {
+                writes.insert(*k, Some(random_value(r)));
+            }
+        }
+        let sess = db.begin_session(SessionParams::default());
+        let actuals: Vec<(Key, KeyReadWrite)> = writes.iter().map(|(k, v)| (*k, KeyReadWrite::Write(v.clone()))).collect();
+        sess.finish(actuals).map_err(|e| format!("finish: {e:#}"))?.commit(&db).map_err(|e| format!("commit: {e:#}"))?;
+        for (k, v) in writes {
+            disk.insert(k, v.unwrap());
+        }
+        // ---- a chain of overlays; the oldest ones may get committed on the way
+        let n_ov = r.range(1, 4);
+        for _ in 0..n_ov {
+            let view = fold_view(&disk, &overlays);
+            let mut ch: BTreeMap<Key, Change> = BTreeMap::new();
+            for _ in 0..*r.pick(&[1usize, 2, 3, 5, universe.len() / 2]) {
+                let k = *r.pick(&universe);
+                let c = if view.contains_key(&k) && r.chance(1, 2) { None } else if r.chance(1, 6) { None } else { Some(random_value(r)) };
+                ch.insert(k, c);
+            }
+            let refs: Vec<&RealOverlay> = overlays.iter().rev().map(|o| &o.0).collect();
+            let params = SessionParams::default().overlay(refs).map_err(|e| format!("overlay chain refused: {e:?}"))?;
+            let sess = db.begin_session(params);
+            let actuals: Vec<(Key, KeyReadWrite)> = ch.iter().map(|(k, v)| (*k, KeyReadWrite::Write(v.clone()))).collect();
+            let ov = sess.finish(actuals).map_err(|e| format!("finish: {e:#}"))?.into_overlay();
+            overlays.push((ov, ch));
+            if overlays.len() >= 2 && r.chance(1, 4) {
+                let (ov, ch) = overlays.remove(0);
+                ov.commit(&db).map_err(|e| format!("overlay commit: {e:#}"))?;
+                for (k, c) in ch {
+                    match c {
+                        Some(v) => {
+                            disk.insert(k, v);
+                        }
+                        None => {
+                            disk.remove(&k);
+                        }
+                    }
+                }
+                out.count("seek_overlay_commits");
+            }
+        }
+        Ok(())
+    }));
+    match result {
+        Err(_) => {
+            out.fail(format!("C11 building the overlay chain on the real store panicked (case {case})"));
+            drop(overlays);
+            drop(db);
+            let _ = std::fs::remove_dir_all(&dir);
+            return;
+        }
+        Ok(Err(e)) => {
+            out.fail(format!("C11 building the overlay chain on the real store failed: {e} (case {case})"));
+            drop(overlays);
+            drop(db);
+            let _ = std::fs::remove_dir_all(&dir);
+            return;
+        }
+        Ok(Ok(())) => {}
+    }
+    // ---- the session on the chain
+    let view = fold_view(&disk, &overlays);
+    let mut folded: BTreeMap<Key, Change> = BTreeMap::new();
+    for (_, ch) in &overlays {
+        for (k, c) in ch {
+            folded.insert(*k, c.clone());
+        }
+    }
+    let hashes: Vec<(Key, [u8; 32])> = view.iter().map(|(k, v)| (*k, crate::db::vhash(v))).collect();
+    let want_root = ref_root(&hashes);
+    let refs: Vec<&RealOverlay> = overlays.iter().rev().map(|o| &o.0).collect();
+    let sess = match SessionParams::default().overlay(refs) {
+        Ok(p) => db.begin_session(p),
+        Err(e) => {
+            out.fail(format!("C11 the complete chain was refused: {e:?}"));
+            return;
+        }
+    };
+    if sess.prev_root().into_inner() != want_root {
+        out.fail(format!("C11 the root of the overlay chain is not the root of committed map + changes (case {case})"));
+    }
+    let mut probes: Vec<Key> = universe.clone();
+    for _ in 0..4 {
+        let k = *r.pick(&universe);
+        probes.push(if r.chance(1, 2) { succ(&k) } else { pred(&k) });
+    }
+    for k in &probes {
+        let proof = match std::panic::catch_unwind(std::panic::AssertUnwindSafe(|| sess.prove(*k))) {
+            Err(_) => {
+                out.fail(format!("C05 Session::prove panicked for {} on an overlay chain (case {case})", hex(k)));
+                if disk.len() + folded.len() <= 64 {
+                    let disk_items: Vec<(Key, Vec<u8>)> = disk.iter().map(|(k, v)| (*k, crate::db::vhash(v).to_vec())).collect();
+                    let ov_items: Vec<(Key, Change)> = folded.iter().map(|(k, c)| (*k, c.clone())).collect();
+                    out.line(format!("seeknode 0 {} {}", show_kv(&disk_items), show_hashed(&ov_items)), "panic".into());
+                }
+                continue;
+            }
+            Ok(Err(e)) => {
+                out.fail(format!("C05 Session::prove failed: {e:#}"));
+                continue;
+            }
+            Ok(Ok(p)) => p,
+        };
+        out.count("seek_proofs");
+        let d = proof.siblings.len();
+        // oracle: the proof is the reference proof of the view
+        let (want_term, want_sibs) = ref_prove(&hashes, k);
+        let got_term = match &proof.terminal {
+            PathProofTerminal::Leaf(l) => RefTerminal::Leaf(l.key_path, l.value_hash),
+            PathProofTerminal::Terminator(p) => RefTerminal::Terminator(p.depth() as usize),
+        };
+        if got_term != want_term || proof.siblings != want_sibs {
+            out.fail(format!(
+                "C05 the proof of {} from a session on {} overlays is not the proof of committed map + changes: terminal {:?} at depth {d}, expected {:?} at depth {}",
+                hex(k),
+                overlays.len(),
+                got_term,
+                want_term,
+                want_sibs.len()
+            ));
+        }
+        // the real node at every page boundary above the terminal, from the real proof
+        let mut node = match &proof.terminal {
+            PathProofTerminal::Leaf(l) => Blake3Hasher::hash_leaf(&LeafData { key_path: l.key_path, value_hash: l.value_hash }),
+            PathProofTerminal::Terminator(_) => TERMINATOR,
+        };
+        let mut node_at: BTreeMap<usize, [u8; 32]> = BTreeMap::new();
+        node_at.insert(d, node);
+        for i in (0..d).rev() {
+            let s = proof.siblings[i];
+            node = if bit(k, i) { Blake3Hasher::hash_internal(&InternalData { left: s, right: node }) } else { Blake3Hasher::hash_internal(&InternalData { left: node, right: s }) };
+            node_at.insert(i, node);
+        }
+        // ---- the leaf fetch below a leaf node: disk items and the REAL overlay items of the terminal's range
+        if let PathProofTerminal::Leaf(l) = &proof.terminal {
+            let (a, b) = subtree_range(k, d);
+            let ov_items = sess.verif_overlay_value_iter(a, b);
+            let want_items: Vec<(Key, Change)> = folded.range(a..).filter(|(k, _)| b.map_or(true, |b| **k < b)).map(|(k, c)| (*k, c.clone())).collect();
+            if ov_items != want_items {
+                out.fail(format!("C05 value_iter of the session's chain over the leaf's range yields {} but the chain changes {}", show_writes(&ov_items), show_writes(&want_items)));
+            }
+            let disk_items: Vec<(Key, Vec<u8>)> = disk.range(a..).filter(|(k, _)| b.map_or(true, |b| **k < b)).map(|(k, v)| (*k, crate::db::vhash(v).to_vec())).collect();
+            let op = format!("leaffetch {} {}", show_kv(&disk_items), show_hashed(&ov_items));
+            out.line(op.clone(), format!("ok {}:{}", hex(&l.key_path), hex(&l.value_hash)));
+            out.count(if ov_items.is_empty() { "seek_leaf_plain" } else if ov_items.iter().any(|i| i.1.is_some()) { "seek_leaf_overlay_insert" } else { "seek_leaf_overlay_deletes" });
+            if !ov_items.is_empty() {
+                out.nontrivial(&op);
+            }
+        }
+        // ---- the merged range below every page boundary on the path (what an elided page is rebuilt from)
+        let mut dd = 6;
+        while dd <= d {
+            let (a, b) = subtree_range(k, dd);
+            let ov_items = sess.verif_overlay_value_iter(a, b);
+            let disk_items: Vec<(Key, Vec<u8>)> = disk.range(a..).filter(|(k, _)| b.map_or(true, |b| **k < b)).map(|(k, v)| (*k, crate::db::vhash(v).to_vec())).collect();
+            if disk_items.len() + ov_items.len() <= 64 {
+                let op = format!("seeknode {dd} {} {}", show_kv(&disk_items), show_hashed(&ov_items));
+                out.line(op.clone(), hex(&node_at[&dd]));
+                out.count("seek_nodes");
+                if !ov_items.is_empty() && !disk_items.is_empty() {
+                    out.nontrivial(&op);
+                    out.count("seek_nodes_merged");
+                }
+            }
+            dd += if dd < 24 { 6 } else { 60 };
+        }
+    }
+    drop(sess);
+    drop(overlays);
+    drop(db);
+    let _ = std::fs::remove_dir_all(&dir);
+}
+
+fn fold_view(disk: &BTreeMap<Key, Vec<u8>>, overlays: &[(nomt::Overlay, BTreeMap<Key, Change>)]) -> BTreeMap<Key, Vec<u8>> {
+    let mut m = disk.clone();
+    for (_, ch) in overlays {
+        for (k, c) in ch {
+            match c {
+                Some(v) => {
+                    m.insert(*k, v.clone());
+                }
+                None => {
+                    m.remove(k);
+                }
+            }
+        }
+    }
+    m
 }
